@@ -185,7 +185,8 @@ function genVersion (rng, fi, vi, kind, o) {
     const split = rng.chance(1, 3) ? rng.range(Math.max(gap + 1, 2), Math.max(gap + 2, nLines - 2)) : 0
     const lineOf = (L) => split && L >= split ? (L - split) * mult + ((split - 1) * mult + off) : L * mult + off
     for (let L = gap; L < nLines; L++) toks.push({ gl: L, gc: 0, src: split && L >= split ? 1 : 0, sl: lineOf(L), sc: 0, name: null })
-    const source = rng.pick(['../ts/orig.ts', `src/f${fi}.ts`, `f${fi}v${vi}.ts`])
+    // relative to the file's folder, or absolute (bundlers emit both)
+    const source = rng.pick(['../ts/orig.ts', `src/f${fi}.ts`, `f${fi}v${vi}.ts`, `/abs/src/f${fi}.ts`])
     const source2 = `src/second_f${fi}.ts`
     const sourceRoot = rng.pick([undefined, '', 'root', 'root/'])
     // real maps repeat entries of `sources` (a bundle input listed twice): the tokens then use the later index
@@ -197,7 +198,8 @@ function genVersion (rng, fi, vi, kind, o) {
     const m = { file: path.basename(o.file), sources: srcList || (split ? [source, source2] : [source]), names: [], toks }
     if (sourceRoot !== undefined) m.sourceRoot = sourceRoot
     const json = encodeMap(m)
-    const root = (x) => sourceRoot ? sourceRoot.replace(/\/$/, '') + '/' + x : x
+    // a sourceRoot is not put in front of an absolute source
+    const root = (x) => sourceRoot && !x.startsWith('/') ? sourceRoot.replace(/\/$/, '') + '/' + x : x
     const rooted = root(source)
     v.omap = { json, mult, off, source: rooted, source2: root(source2), split, mode: o.omap, gap }
     if (o.omap === 'inline') {
